@@ -763,6 +763,7 @@ pub fn run(ctx: &Ctx, replay: Option<&Value>, rest: &[String]) -> i32 {
     ctx.set("after_example_edits", json!(ctx.evals()));
     eprintln!("[c06] example edits done: {} evals, {:.1}s", ctx.evals(), ctx.wall());
     textspace::token_strings(if thorough { 4 } else { 3 }, &f);
+    textspace::operand_strings(if thorough { 5 } else { 4 }, &f);
     ctx.set("after_token_strings", json!(ctx.evals()));
     eprintln!("[c06] token strings done: {} evals, {:.1}s", ctx.evals(), ctx.wall());
     // (b) integer sweep
